@@ -199,6 +199,11 @@ def dUpTo (n : Nat) (E : DHG) : DHG := E.filter (dsize · ≤ n)
 def relabelDEdge (π : Nat → Nat) (e : DEdge) : DEdge := (isort (e.1.map π), isort (e.2.map π))
 def relabelDHG (π : Nat → Nat) (E : DHG) : DHG := E.map (relabelDEdge π)
 
+/-- the node sets classified by `compute_directed_motifs` (keys of the final `visited` dict, in visiting order):
+full pass, then (order 4) the not-full pass -/
+def dCounted (n : Nat) (F : DHG) : List (List Nat) :=
+  dFullSets n F ++ (if n == 4 then dNotFullSets n F (dFullSets n F) else [])
+
 /-- `compute_directed_motifs(h, n, 0)['observed']` as (canonical pattern, count), in first-seen order -/
 def dirCensus (n : Nat) (E0 : DHG) : List (List DEdge × Nat) :=
   let E := dUpTo n E0
